@@ -104,6 +104,8 @@ type Gen struct {
 	declared map[string]bool
 	sinces   [][2]string
 	argOfWanted map[string]bool
+	sumlenWanted map[string]bool
+	exportWanted map[string]bool
 	memLocals map[string]bool
 	localRefs map[string]string // ref term of a non-escaping local alloc (and its sub-objects) -> component prefix
 	ghostTypes map[string]types.Type
